@@ -388,7 +388,7 @@ def run_direct(ctx, case):
             q = workers[w].sampler
             for _ in range(b):
                 sid += 1
-                before = q.q.qsize()
+                before = sim_race.qlen(q.q)
                 # unique (client, relative time) per sample: 1/1024 s apart, exactly representable
                 t = sid / 1024.0
                 normal = sid > warm
@@ -399,7 +399,7 @@ def run_direct(ctx, case):
                       for o, ot in deps] or None
                 sampler_add(q, task, w, metrics.SampleType.Normal if normal else metrics.SampleType.Warmup, {}, 1000.0 + t, t, 0.5, 0.25, 0.125, None, 1, "ops",
                             0.25, None, dt)
-                acc = q.q.qsize() > before
+                acc = sim_race.qlen(q.q) > before
                 accepted_total += acc
                 dropped_total += not acc
                 if acc:
@@ -412,7 +412,7 @@ def run_direct(ctx, case):
         elif step[0] == "ship":
             w = step[1]
             n0 = len(sent)
-            queued = workers[w].sampler.q.qsize()
+            queued = sim_race.qlen(workers[w].sampler.q)
             got = driver.Worker.send_samples(workers[w])
             if len(got) != queued:
                 ctx.fail("direct:ship-incomplete", f"Worker.send_samples shipped {len(got)} of {queued} queued samples (n={case['n']})", queued, len(got))
@@ -477,7 +477,7 @@ def run_direct(ctx, case):
         while handovers:
             do(["receive"])
     # nothing may be left in flight in the real pipeline (flush_drains)
-    left = {"queues": sum(ws.sampler.q.qsize() for ws in workers), "shipments": sum(len(p) for p in pending.values()), "raw": len(drv.raw_samples),
+    left = {"queues": sum(sim_race.qlen(ws.sampler.q) for ws in workers), "shipments": sum(len(p) for p in pending.values()), "raw": len(drv.raw_samples),
             "driver-store": sum(1 for d in dstore.docs if d["name"] in REQUEST_METRICS), "handovers": len(handovers)}
     if any(left.values()):
         ctx.fail("direct:flush-leaves-samples-in-flight", "after the flush (every worker ships, driver receives, post-processes, hands over, race control receives) "
